@@ -13,9 +13,13 @@ import (
 	"verifmc/engine/coopdrv"
 	"verifmc/engine/ev"
 	"verifmc/props/c27"
+	"verifmc/props/c28"
 )
 
-var outcomeFns = map[string]func(s *coop.Sched) string{"C27": c27.Outcome}
+var outcomeFns = map[string]func(s *coop.Sched) string{"C27": c27.Outcome, "C28": c28.Outcome}
+
+// additional sequential-history enumerations that run in worker processes next to the schedule exploration
+var sequentialFns = map[string]func(run *ev.Run) (wait func()){"C28": c28.StartSequential}
 
 func main() {
 	utils.SetGlobalLoggingLevel("fatal")
@@ -26,6 +30,10 @@ func main() {
 	switch os.Args[1] {
 	case "shard":
 		coopdrv.ShardMain(os.Args[2:], outcomeFns[os.Args[2]])
+	case "seq":
+		if os.Args[2] == "C28" {
+			c28.SeqMain(os.Args[2:])
+		}
 	case "check":
 		id := os.Args[2]
 		run := ev.NewRun(id, "model_checking")
@@ -37,7 +45,14 @@ func main() {
 			deadline = 20 * time.Minute
 			capPerShard = 20000000
 		}
+		var waitSeq func()
+		if f := sequentialFns[id]; f != nil {
+			waitSeq = f(run)
+		}
 		coopdrv.Run(run, id, bounds, 16, capPerShard, deadline)
+		if waitSeq != nil {
+			waitSeq()
+		}
 		run.Set("bound", fmt.Sprintf("all schedules with preemption bounds %v at lock/atomic/sleep points of protocol/lavasession; harnesses %v", bounds, coopdrv.Names(id)))
 		run.Assume("sequentially consistent interleavings at synchronisation operations of the rewritten package (sync, sync/atomic, time.Sleep); code between two points runs atomically; TRY_LOCK_ATTEMPTS reduced 30 -> 2 (uniform retry loop); RWMutex without writer preference (superset of Go's behaviours)")
 		os.Exit(run.Finish())
